@@ -401,6 +401,15 @@ func definitelyNonNil(v ssa.Value) bool {
 	case *ssa.Slice:
 		return definitelyNonNil(x.X)
 	case *ssa.Call:
+		if b, ok := x.Call.Value.(*ssa.Builtin); ok && b.Name() == "append" && len(x.Call.Args) == 2 {
+			// append(s, at least one element) is never nil
+			if sl, ok := x.Call.Args[1].(*ssa.Slice); ok {
+				if n, ok := arrayLen(sl.X.Type()); ok && n >= 1 && sl.Low == nil && sl.High == nil {
+					return true
+				}
+			}
+			return definitelyNonNil(x.Call.Args[0])
+		}
 		if fn := x.Call.StaticCallee(); fn != nil && fn.Signature.Results().Len() == 1 {
 			return neverReturnsNil(fn, 0)
 		}
